@@ -11,8 +11,26 @@ Theorem print_lexes P S out : wf_set S -> print_set P S = Some out ->
     map (fun ps => to_stmt (snd ps)) bl = get_statements (separate_from_imports P) S /\
     lex out = Some (block_toks bl).
 Proof.
-  intros HS Hp. destruct (print_set_lexes_stmts P S out (get_statements_wf _ S HS) Hp) as (bl & Em & _ & HL).
+  intros HS Hp. destruct (print_set_lexes_stmts P S out (get_statements_wf _ S HS) Hp) as (col & bl & _ & Em & _ & _ & HL).
   exists bl. split; assumption.
+Qed.
+
+(* the explicit token list: tokens P S = block_toks (combine flags sss), where sss is the structured reading of
+   the statements of S (to_stmt sss = get_statements), and the flag of a statement is the computable pp_paren:
+   a `from` statement other than a star import gets parentheses exactly when pyfill's one-line test fails at the
+   column chosen by choose_column *)
+Theorem print_lexes_explicit P S out : wf_set S -> print_set P S = Some out ->
+  exists (col : option nat) (sss : list sstmt),
+    choose_column P (get_statements (separate_from_imports P) S) = inr col /\
+    map to_stmt sss = get_statements (separate_from_imports P) S /\
+    lex out = Some (block_toks (map (fun ss => (pp_paren P col (to_stmt ss), ss)) sss)).
+Proof.
+  intros HS Hp. destruct (print_set_lexes_stmts P S out (get_statements_wf _ S HS) Hp) as (col & bl & Hc & Em & _ & Ef & HL).
+  exists col, (map snd bl). split; [exact Hc|]. rewrite map_map. split; [exact Em|].
+  rewrite HL. f_equal. f_equal. rewrite map_map.
+  rewrite <- Em in Ef. rewrite map_map in Ef.
+  clear - Ef. induction bl as [|[b ss] bl IH]; [reflexivity|]. cbn [map fst snd] in *.
+  inversion Ef as [[E1 E2]]. rewrite <- E1. f_equal. apply IH. exact E2.
 Qed.
 
 Theorem roundtrip P S out : wf_set S -> print_set P S = Some out ->
